@@ -130,6 +130,12 @@ func c05Limits(args []string) error {
 	if err != nil {
 		return err
 	}
+	if *shard == 0 {
+		for _, line := range configEdges() {
+			n++
+			lw.write(line.Src, line, func(v string) { line.Src = v })
+		}
+	}
 	lw.w.Flush()
 	fmt.Println(string(mustJSON(M{"cases": n, "lines": lw.n, "errors": errs})))
 	return nil
@@ -341,4 +347,83 @@ func runLimitCase(eng flows.Engine, lc *limCase, w int, via string) *LimLine {
 		}
 	}
 	return line
+}
+
+// configEdges: every engine call returns normally also under configurations at the edge of what an environment can
+// be - no allowed languages at all, no default country, a contact without language / URNs - with the actions that look
+// at them: a message built from a channel template, a broadcast, an IVR message, URN and language modifiers
+func configEdges() []*LimLine {
+	var out []*LimLine
+	tplUUID := "5722e1fd-fe32-4e74-ac78-3cf41a6adb7e"
+	envsE := map[string]M{
+		"no-languages":  {"date_format": "YYYY-MM-DD", "time_format": "tt:mm", "timezone": "UTC", "allowed_languages": []string{}},
+		"no-country":    {"date_format": "YYYY-MM-DD", "time_format": "tt:mm", "timezone": "UTC", "allowed_languages": []string{"eng"}},
+		"bare":          {},
+		"with-language": {"date_format": "YYYY-MM-DD", "time_format": "tt:mm", "timezone": "UTC", "allowed_languages": []string{"eng", "fra"}, "default_country": "US"},
+	}
+	contacts := map[string]func(M){"plain": func(M) {}, "no-language": func(c M) { delete(c, "language") }, "no-urns": func(c M) { c["urns"] = []string{} },
+		"other-language": func(c M) { c["language"] = "kin" }}
+	actionSets := map[string][]M{
+		"template-msg": {{"type": "send_msg", "text": "hi", "template": M{"uuid": tplUUID, "name": "affirmation"}, "template_variables": []string{"@contact.name"}, "all_urns": true}},
+		"broadcast":    {{"type": "send_broadcast", "text": "hi @contact.name", "urns": []string{"tel:+12065550000"}}},
+		"modifiers": {{"type": "set_contact_language", "language": "fra"}, {"type": "add_contact_urn", "scheme": "tel", "path": "0788123123"},
+			{"type": "set_contact_timezone", "timezone": "Africa/Kigali"}, {"type": "send_msg", "text": "@(format_datetime(now())) @(format_location(\"Rwanda > Kigali\")) @(parse_datetime(\"1.2.2020\", \"D.M.YYYY\"))"}},
+	}
+	for en, env := range envsE {
+		for cn, cf := range contacts {
+			for an, acts := range actionSets {
+				name := fmt.Sprintf("cfg/%s/%s/%s", en, cn, an)
+				line := &LimLine{Src: name, Sink: "cfg:" + an, Via: en + "/" + cn, W: 1, Out: -1, OutBytes: -1, Valid: true, Stored: -1, Expect: -1}
+				func() {
+					defer func() {
+						if r := recover(); r != nil {
+							line.Panic = fmt.Sprintf("%v\n%s", r, firstFrames(string(debug.Stack())))
+						}
+					}()
+					resetGenerators(1)
+					as := []M{}
+					for i, a := range acts {
+						m := M{"uuid": actionUUID(1, 1, i+1)}
+						for k, v := range a {
+							m[k] = v
+						}
+						as = append(as, m)
+					}
+					flow := M{"uuid": flowUUID(1), "name": "Cfg", "spec_version": "13.6.0", "language": "eng", "type": "messaging", "nodes": []M{{"uuid": nodeUUID(1, 1), "actions": as, "exits": exitsFor(1, 1, 0)}},
+						"localization": M{"fra": M{actionUUID(1, 1, 1): M{"text": []string{"salut"}}}}}
+					sa, err := loadAssets(mustJSON(M{"flows": []M{flow},
+						"channels": []M{{"uuid": chanA, "name": "A", "address": "+17036975131", "schemes": []string{"tel"}, "roles": []string{"send", "receive"}, "country": "US"}},
+						"templates": []M{{"uuid": tplUUID, "name": "affirmation", "translations": []M{
+							{"channel": M{"uuid": chanA, "name": "A"}, "locale": "eng-US", "components": []M{{"name": "body", "type": "body/text", "content": "Hi {{1}}", "variables": M{"1": 0}}}, "variables": []M{{"type": "text"}}},
+							{"channel": M{"uuid": chanA, "name": "A"}, "locale": "fra", "components": []M{{"name": "body", "type": "body/text", "content": "Salut {{1}}", "variables": M{"1": 0}}}, "variables": []M{{"type": "text"}}}}}}}))
+					if err != nil {
+						line.Err = "assets: " + err.Error()
+						return
+					}
+					c := contactJSON()
+					cf(c)
+					t := M{"type": "manual", "flow": M{"uuid": flowUUID(1), "name": "Cfg"}, "contact": c, "triggered_on": "2018-07-06T12:00:00Z"}
+					if len(env) > 0 {
+						t["environment"] = env
+					}
+					trig, err := readTrigger(sa, mustJSON(t))
+					if err != nil {
+						line.Err = "trigger: " + err.Error()
+						return
+					}
+					s, _, err := newEngine(0, -1).NewSession(sa, trig)
+					if err != nil {
+						line.Err = "start: " + err.Error()
+						return
+					}
+					line.Status = string(s.Status())
+				}()
+				if line.Err != "" && line.Panic == "" {
+					continue
+				}
+				out = append(out, line)
+			}
+		}
+	}
+	return out
 }
